@@ -6,6 +6,21 @@ import os
 ROOT = os.path.dirname(os.path.dirname(os.path.abspath(__file__)))
 
 CLAIMED = {
+    "C16": dict(
+        category="model_checking",
+        technique="TLA+ reference dedent (character-counted common indentation over contentful lines) vs operational "
+                  "sanitize_message_lines model (TLC, RefEqOp on all bounded comments) + TLC-enumerated comments, tag "
+                  "sequences, link targets and malformed forms compiled by the real compiler and compared with the "
+                  "specification's expectation",
+        text="DocComment.tla gives the message a comment must carry (RefMessage) and the first-component-decides algorithm "
+             "of the implementation with its named deviations; MC_DocComment adds Fits (which tags fit which element), "
+             "Designated (outward scope search from the documented element over the family's key table) and the malformed "
+             "catalogue. TLC enumerates four families (dedent, tags, links incl. simultaneous links, malformed); every case "
+             "is rendered into a fixed program on each commentable kind, compiled, and overview / tag identifiers and "
+             "messages / link bindings / warning counts and levels / kept elements compared.",
+        note="Texts are fixed words; indentation classes are ' ', U+3000, TAB. Up to 3 lines exhaustively (4 over a reduced "
+             "alphabet in the thorough tier), up to 2 tags per comment.",
+        design_ref="5 (C16), 4 (DocComment)"),
     "C13": dict(
         category="model_checking",
         technique="TLA+ reference suppression predicate vs operational three-stage level rewrite (TLC, all site x "
